@@ -25,25 +25,42 @@
 (***************************************************************************)
 EXTENDS Integers, Sequences, FiniteSets, TLC
 
-CONSTANTS Tables, Sources
+CONSTANTS
+  \* @type: Set(Str);
+  Tables,
+  \* @type: Set(Str);
+  Sources
 
+\* (the @type comments are for Apalache, which checks the inductive invariant of spec/IndPipe.tla)
 VARIABLES
+  \* @type: Str -> Bool;
   up,       \* [Tables -> BOOLEAN]
+  \* @type: Str -> (Str -> Int);
   rd,       \* [Tables -> [Sources -> Int]]   last entry read, per source
+  \* @type: Str -> {src: Str, off: Int, offered: Bool};
   pend,     \* [Tables -> [src, off, offered]]  the entry between Read and Verdict (off = 0: none)
+  \* @type: Str -> Seq({src: Str, off: Int, key: Bool});
   queue,    \* [Tables -> Seq([src, off, key])]  handed to the row store, not yet applied
+  \* @type: Str -> (Str -> Int);
   applied,  \* [Tables -> [Sources -> Int]]   the memstore's offsets
+  \* @type: Str -> Set(<<Str, Int>>);
   mem,      \* [Tables -> SUBSET (Sources \X Int)]  accepted entries in the memstore
+  \* @type: Str -> Bool;
   offchg,   \* [Tables -> BOOLEAN]   offsets advanced since they were last written
+  \* @type: Str -> Str;
   fl,       \* [Tables -> flush phase]
+  \* @type: Str -> {offs: Str -> Int, set: Set(<<Str, Int>>)};
   flw,      \* [Tables -> [offs, set]]   what the flush in progress writes
+  \* @type: Str -> {offs: Str -> Int, set: Set(<<Str, Int>>)};
   cur,      \* [Tables -> [offs, set]]   the file store scans see
+  \* @type: Str -> {offs: Str -> Int, set: Set(<<Str, Int>>)};
   durFile,  \* [Tables -> [offs, set]]   the newest renamed file
+  \* @type: Str -> (Str -> Int);
   durOff    \* [Tables -> [Sources -> Int]]  the offset file
 pvars == <<up, rd, pend, queue, applied, mem, offchg, fl, flw, cur, durFile, durOff>>
 
 Zero == [s \in Sources |-> 0]
-NoPend == [src |-> CHOOSE s \in Sources : TRUE, off |-> 0, offered |-> FALSE]
+NoPend == [src |-> "", off |-> 0, offered |-> FALSE]
 Max2(a, b) == IF a >= b THEN a ELSE b
 \* where a table resumes after a restart
 Rec(t) == [s \in Sources |-> Max2(durFile[t].offs[s], durOff[t][s])]
